@@ -509,6 +509,23 @@ class NumpyModel(types.ModuleType):
             return self._real.where(*a)
         raise OutOfReach("where of symbolic")
 
+    def trace(self, a, offset=0, axis1=0, axis2=1, **k):
+        """sum of the diagonal over two axes (offset 0), the remaining axes keep their order: an einsum with a repeated letter"""
+        if self._real is not None and not self._sym(a):
+            return self._real.trace(a, offset=offset, axis1=axis1, axis2=axis2)
+        a = lift(a)
+        n = a.ndim
+        if offset != 0 or n > 26:
+            raise OutOfReach("trace with an offset")
+        a1, a2 = axis1 % n, axis2 % n
+        if a1 == a2:
+            raise ValueError("axis1 and axis2 cannot be the same")
+        letters = [chr(ord("a") + i) for i in range(n)]
+        letters[a2] = letters[a1]
+        outl = [letters[i] for i in range(n) if i not in (a1, a2)]
+        used("trace (as einsum with a repeated index)")
+        return arr.einsum("".join(letters) + "->" + "".join(outl), a)
+
     def diag(self, a):
         if self._real is not None and not self._sym(a):
             return self._real.diag(a)
